@@ -141,25 +141,36 @@ class Runner:
             a.append(mode)
         return a
 
-    def run_cli(self, mode, fault=None):
+    def run_cli(self, mode, fault=None, prelude=None, keep=None):
         """One invocation = one simulated process = one forked child: nothing
         the tool keeps in module globals or in the logging tree reaches the
-        next invocation."""
+        next invocation.  With `prelude`, the same process first performs an
+        invocation in that mode (and the user then removes the output files
+        not in `keep`); the trace returned is that of the second invocation."""
         w = self.world
         start = len(w.trace)
 
         def body():
+            mark = None
+            if prelude is not None:
+                clirun.invoke(self.cli, self.args(prelude))
+                with w.suspend():
+                    for fn in os.listdir(self.outd):
+                        if keep is not None and fn not in keep:
+                            os.unlink(os.path.join(self.outd, fn))
+                w.advance(8)
+                mark = len(w.trace)
             r = clirun.invoke(self.cli, self.args(mode))
             clirun.end_of_process()
             if r.exc is not None:
                 r.exc = repr(r.exc)
-            return r
+            return r, mark
 
         proc = w.run_forked(body, name=mode, fault=fault)
-        res = proc.outcome[1] if proc.outcome[0] == "returned" else None
+        res, mark = proc.outcome[1] if proc.outcome[0] == "returned" else (None, None)
         self.evals += 1
         w.advance(1)
-        return res, w.trace[start:]
+        return res, w.trace[(mark if mark is not None else start):]
 
     def wipe_out(self):
         with self.world.suspend():
@@ -296,6 +307,36 @@ class Runner:
             f"noclobber first={self.site_kind(first) if first else '-'} |S|={'1' if k == 1 else ('all' if k == len(C) else 'some')} "
             f"kind={kinds[first] if first else '-'} fmt={self.case['fmt']} log={int(self.case['write_log'])}")
 
+    def check_after_run(self, S, C):
+        """The pre-existing files are those an earlier invocation IN THE SAME
+        PROCESS has just written (S of them are still there): --no-clobber
+        must refuse and leave them as they are."""
+        self.wipe_out()
+        kinds = {fn: "same" for fn in S}
+        res, trace = self.run_cli("noclobber", prelude="default", keep=set(S))
+        relS = {os.path.join("out", fn) for fn in S}
+        mode = "noclobber_after_run"
+        if res is None:
+            return
+        if res.code == 0:
+            self.violate("noclobber_exit_zero", "exit", f"--no-clobber after an invocation in the same process had written {sorted(S)} exited 0\nstderr: {res.stderr[-600:]}", S, kinds, mode)
+        for (pid, n, op, rel, nb, note) in trace:
+            if rel in relS and is_mutating_op(op) and not note.startswith("failed") and op != "utime":
+                fn = os.path.basename(rel)
+                self.violate(
+                    "noclobber_mutating_op", f"{self.site_kind(fn)}:{op.split(':')[0]}",
+                    f"--no-clobber performed {op} on {rel}, written by an earlier invocation in the same process", S, kinds, mode)
+                break
+        now = self.listing()
+        for fn in S:
+            if now.get(fn) != C[fn]:
+                what = "deleted" if fn not in now else "changed"
+                self.violate(
+                    "noclobber_file_altered", f"{self.site_kind(fn)}:{what}",
+                    f"--no-clobber: {fn}, written by an earlier invocation in the same process, was {what}; exit={res.code}", S, kinds, mode)
+                break
+        self.classes.add(f"noclobber after a run in the same process |S|={'all' if len(S) == len(C) else 'some'} fmt={self.case['fmt']} log={int(self.case['write_log'])}")
+
     def fault_variants(self, S, kinds, C, trace):
         """The same --no-clobber run with an I/O error or a kill injected at a
         seeded event: whatever else happens, the pre-existing files stay as
@@ -429,6 +470,8 @@ class Runner:
                     return "discard"
                 if mode == "noclobber":
                     self.check_noclobber(S, kinds, C)
+                elif mode == "noclobber_after_run":
+                    self.check_after_run(S, C)
                 elif mode.startswith("noclobber+"):
                     kind, at, frac = mode[len("noclobber+"):].split("@")
                     self.replay_fault(S, kinds, C, kind, int(at), float(frac))
@@ -436,6 +479,9 @@ class Runner:
                     self.check_clobber(S, kinds, C, mode)
                 return "ok"
             rng = random.Random(self.case["subset_seed"])
+            self.check_after_run(list(W), C)
+            if len(W) > 1:
+                self.check_after_run(sorted(rng.sample(W, rng.randint(1, len(W) - 1))), C)
             for S in self.subsets(W, rng):
                 kinds = {fn: rng.choice(_SENTINEL_KINDS) for fn in S}
                 self.check_noclobber(S, kinds, C)
